@@ -95,6 +95,16 @@ Definition affine (a b c d e f : Z) (p : xy) : xy :=
   (inject_Z a * fst p + inject_Z b * snd p + inject_Z c,
    inject_Z d * fst p + inject_Z e * snd p + inject_Z f).
 
+(* non-linear per-vertex transforms (exact on the lattice): they distinguish "transform, then
+   use the vertex" from any reordering that commutes with affine maps only *)
+Definition nonlinear (kind : Z) (p : xy) : xy :=
+  let x := fst p in let y := snd p in
+  match kind with
+  | 1%Z => (x * x, y)
+  | 2%Z => (x * y, y + x)
+  | _ => (x * x - y, x + y * y)
+  end.
+
 (* ---- lattice oracles ----------------------------------------------------------------------- *)
 Definition zpt := (Z * Z)%type.
 Open Scope Z_scope.
